@@ -4,6 +4,7 @@ import (
 	"errors"
 	"fmt"
 	"reflect"
+	"regexp"
 	"runtime"
 	"strings"
 	"sync"
@@ -76,6 +77,8 @@ func unmarshalOps(t reflect.Type, inputs []string) []concOp {
 // named ignored field makes the reflect.Type distinct, so the type cache is cold for it).
 var freshCounter int
 
+var ignoredRe = regexp.MustCompile(`Ignored[0-9]+ `)
+
 func freshType() reflect.Type {
 	freshCounter++
 	return reflect.StructOf([]reflect.StructField{
@@ -94,13 +97,8 @@ func freshOps(t reflect.Type) []concOp {
 		v.Field(2).SetBytes([]byte("abc"))
 		return v
 	}
-	strip := func(s string) string {
-		// error texts name the (anonymous) struct type, which differs by the unique field: normalise it
-		for i := 0; i <= freshCounter; i++ {
-			s = strings.ReplaceAll(s, fmt.Sprintf("Ignored%d ", i), "IgnoredK ")
-		}
-		return s
-	}
+	// error texts name the (anonymous) struct type, which differs by the unique field: normalise it
+	strip := func(s string) string { return ignoredRe.ReplaceAllString(s, "IgnoredK ") }
 	return []concOp{
 		{"fresh marshal T", func() string {
 			s, err := crypthash.Marshal(mk().Interface())
@@ -140,12 +138,7 @@ func freshBadOps() []concOp {
 		{Name: "S1", Type: reflect.TypeOf(""), Tag: `hash:"group"`},
 		{Name: fmt.Sprintf("Ignored%d", freshCounter), Type: reflect.TypeOf(0), Tag: `hash:"-"`},
 	})
-	strip := func(s string) string {
-		for i := 0; i <= freshCounter; i++ {
-			s = strings.ReplaceAll(s, fmt.Sprintf("Ignored%d ", i), "IgnoredK ")
-		}
-		return s
-	}
+	strip := func(s string) string { return ignoredRe.ReplaceAllString(s, "IgnoredK ") }
 	show := func(err error) string {
 		var te *crypthash.TagParamError
 		st := "-"
